@@ -251,5 +251,17 @@ ADDENDA = {
     'C16': ' Added: recursion family (closure size x where the parameter is read x how the inner call is made x depth), partial-hof family (function items given to partially applied named '
            'higher-order functions, from rebinding scopes and after earlier calls), mixed decimal / double / integer keys in the sort family.',
 }
+ADDENDA3 = {
+    'C04': ' Third wave: chains of two comparison operators are judged (XPST0003), fillers nested up to five levels, seqtype-source units (sequence types x occurrence indicators x operands: source round trip of tree and value).',
+    'C05': ' Third wave: expressions that serialise / re-parse / copy / compare nodes of the caller\'s documents, a third variable map with other shapes and missing names.',
+    'C08': ' Third wave: untyped NaN / -INF in numeric sequences, boolean keys of index-of, operands abandoned after their first item (head, exists, empty) inside a focus, deep-equal with two focus-dependent operands.',
+    'C12': ' Third wave: one-character and reversed ranges and an escaped [ in the class alphabet, six nested-group patterns for analyze-string (texts read from text nodes).',
+    'C13': ' Third wave: string-args unit (string arguments with ranges, escaped brackets, backslash, caret, hyphens in every position through six entry points) and the same object on both sides of the in-place operators.',
+    'C16': ' Third wave: case-insensitive collation combined with key functions in fn:sort.',
+    'C18': ' Third wave: treat-expressions units - focus-dependent sequence constructors as operands of instance of / treat as with the 2.0, 3.0 and 3.1 parsers; function items referenced below their maximum arity.',
+    'C20': ' Third wave: anonymous types derived from named user types, document-rooted reuse histories with set-schema and touch operations, unions whose first member is decimal / integer / double / date / boolean, xs:QName typed content, years before 1 and the year 0000, typed kind tests on nilled elements.',
+}
 for _pid, _txt in ADDENDA.items():
+    CHECKS[_pid]['text'] += _txt
+for _pid, _txt in ADDENDA3.items():
     CHECKS[_pid]['text'] += _txt
